@@ -160,6 +160,11 @@ func (n UnixFSHAMTShard) loadChild(pbLink dagpb.PBLink) (UnixFSHAMTShard, error)
 	if err != nil {
 		return nil, err
 	}
+	if und.data.FieldFanout().Must().Int() != n.data.FieldFanout().Must().Int() {
+		// link names are prefixed with a fixed-width index derived from the
+		// fanout, so every shard of one directory has to agree on it
+		return nil, ErrHAMTFanoutMismatch
+	}
 	verifAt("hamt.loadChild.store")
 	n.shardCache[pbLink.FieldHash().Link()] = und
 	return und, nil
